@@ -22,9 +22,12 @@
 (*    parsers: bytesconv.underscoreOK, special, readFloat, decimal.set, the        *)
 (*    dispatch in atof64, ParseUint/ParseInt/Atoi (benchfmt/internal/bytesconv),   *)
 (*    and the integer fast path of atof in benchfmt/reader.go, at the level of     *)
-(*    accept / reject / denotation.  The scanners' 19-digit mantissa accumulator,  *)
-(*    the trunc flag and everything downstream of them (exact path, decimal        *)
-(*    shifting, rounding) is the rounding algorithm and is NOT modelled.           *)
+(*    accept / reject / denotation.  readFloat's 19-digit mantissa accumulator and *)
+(*    everything downstream of the scanners (exact path, decimal shifting,         *)
+(*    rounding, atofHex) is the rounding algorithm and is NOT modelled.  The       *)
+(*    800-digit buffer of decimal.set IS (BufCap): what it drops must not change   *)
+(*    the magnitude.  As built it does - the named deviation LosesIntegerDigits,   *)
+(*    FALSE in the normative configurations, TRUE in NumLit_asbuilt.cfg.           *)
 (*                                                                                 *)
 (* TLC checks on every text of the configured bound that both sides agree, that    *)
 (* the classification is a function, and the fast-path lemmas, for a PARAMETRIC    *)
